@@ -427,6 +427,7 @@ struct Worker {
     sender: Sender<Option<String>>,
     receiver: Receiver<Option<String>>,
     stopped: AtomicBool,
+    stop_requested: AtomicBool,
     stats: WorkerStats,
 }
 
@@ -441,6 +442,7 @@ impl Worker {
             sender: tx,
             receiver: rx,
             stopped: AtomicBool::new(false),
+            stop_requested: AtomicBool::new(false),
             stats: WorkerStats::new(),
         }
     }
@@ -463,12 +465,19 @@ impl Worker {
     }
 
     fn run(&self) {
-        for opt in self.receiver.iter() {
-            if let Some(v) = opt {
-                self.stats.incr_drained();
-                (self.task)(v);
-            } else {
+        loop {
+            // A stop was requested while the channel had no room for the poison
+            // pill: stop as soon as everything already queued has been processed.
+            if self.stop_requested.load(Ordering::SeqCst) && self.receiver.is_empty() {
                 break;
+            }
+
+            match self.receiver.recv() {
+                Ok(Some(v)) => {
+                    self.stats.incr_drained();
+                    (self.task)(v);
+                }
+                _ => break,
             }
         }
 
@@ -480,7 +489,15 @@ impl Worker {
 
     fn stop(&self) {
         // Send a `None` poison pill value to stop the run loop.
-        let _ = self.sender.try_send(None);
+        if let Err(TrySendError::Full(_)) = self.sender.try_send(None) {
+            // The channel is full so the poison pill can't be queued (and we must
+            // not block here). Flag the stop request instead, the run loop checks
+            // it after every entry it processes. Try the poison pill once more
+            // afterwards: if the channel was drained in the meantime the worker may
+            // already be waiting for the next entry without having seen the flag.
+            self.stop_requested.store(true, Ordering::SeqCst);
+            let _ = self.sender.try_send(None);
+        }
     }
 
     // Stop reading events from the channel and wait for the "stopped" flag
